@@ -15,7 +15,7 @@ import (
 // call, so a 454-byte program — a function whose recursive call sits inside 100 nested
 // additions — dies with Go's "fatal error: stack overflow" (exit status 2, goroutine
 // dump) before the 4097th frame is refused, instead of the runtime error "call depth
-// limit exceeded". With 70 nested additions it is the ordinary runtime error.
+// limit exceeded". With few nested additions it is the ordinary runtime error (on this machine up to about 70).
 func knownK1Program(n int) string {
 	return "function f(n) { return " + strings.Repeat("0+(", n) + "f(n + 1)" + strings.Repeat(")", n) + " }\nBEGIN { print \"before\"; print f(0) }"
 }
@@ -26,11 +26,11 @@ func init() {
 		register(Family{
 			Name: "known-findings",
 			Prop: prop,
-			Rule: "fixed witnesses of recorded, unrepaired defects (KNOWN_FINDINGS.txt); K1: runaway recursion whose recursive call is nested in 100 additions must end in the runtime error 'call depth limit exceeded' (class runtime, output 'before' kept) — the implementation crashes with a Go stack overflow instead; the 70-addition variant is the control that works",
+			Rule: "fixed witnesses of recorded, unrepaired defects (KNOWN_FINDINGS.txt); K1: runaway recursion whose recursive call is nested in 100 additions must end in the runtime error 'call depth limit exceeded' (class runtime, output 'before' kept) — the implementation crashes with a Go stack overflow instead; the 5-addition variant is the control that works (a control near the threshold — 70 additions — proved load- and machine-sensitive and was a false alarm of this check in one run)",
 			Gen: func(r *rand.Rand, tier string, emit func(Case)) {
-				for _, n := range []int{70, 100} {
+				for _, n := range []int{5, 100} {
 					prog := knownK1Program(n)
-					emit(Case{ID: "K1-nesting-" + map[int]string{70: "70-control", 100: "100"}[n],
+					emit(Case{ID: "K1-nesting-" + map[int]string{5: "5-control", 100: "100"}[n],
 						Req:    RunReq(prog, nil, []File{{Name: "in.json", Data: []byte("[]")}}, false),
 						Fields: []string{"class", "out"},
 						Oracle: func(i Resp) string {
@@ -40,7 +40,7 @@ func init() {
 							return ""
 						},
 						NonTrivial: c01Any, ImplOnly: true,
-						Meta: map[string]string{"id": "K1", "program-head": prog[:60], "nesting": map[int]string{70: "70", 100: "100"}[n], "row": "K1"}})
+						Meta: map[string]string{"id": "K1", "program-head": prog[:60], "nesting": map[int]string{5: "5", 100: "100"}[n], "row": "K1"}})
 				}
 			},
 		})
